@@ -2,6 +2,8 @@ package promapi
 
 import "sync"
 
+import "github.com/cloudflare/pint/internal/verifhook"
+
 // https://medium.com/@petrlozhkin/kmutex-lock-mutex-by-unique-id-408467659c24
 type partitionLocker struct {
 	c *sync.Cond
@@ -10,6 +12,9 @@ type partitionLocker struct {
 }
 
 func newPartitionLocker(l sync.Locker) *partitionLocker {
+	if verifhook.Enabled {
+		l = verifhook.WrapLocker(l)
+	}
 	return &partitionLocker{c: sync.NewCond(l), l: l, s: make(map[string]struct{})}
 }
 
